@@ -1588,6 +1588,9 @@ extern "C" int sched_yield(void) {
 // clock & sleep
 // ------------------------------------------------------------------------------------------
 static const uint64_t kRealtimeOffsetNs = 1700000000ull * 1000000000ull;
+extern "C" uint64_t sim_realtime_offset_ns(void) {
+  return kRealtimeOffsetNs;
+}
 
 static uint64_t abs_to_deadline(clockid_t clk, const struct timespec* ts) {
   uint64_t ns = ts_ns(ts);
